@@ -198,9 +198,17 @@ def fmt_origin(o):
 FRESH = AV()
 
 
+ARR_MARK = ("@arrelem", ())   # marker inside `eor`: the container's elements are arrays (appended array values)
+
+
+def elems_are_arrays(av):
+    return ARR_MARK in av.eor
+
+
 def elem_origins(av):
     """Origins of the elements of container `av` (objects, not array cells)."""
     out = set(av.eor)
+    out.discard(ARR_MARK)
     if not av.arr:
         for (r, pth) in av.origins:
             out.add((r, pth + ("[]",)))
@@ -626,8 +634,12 @@ class Interp:
                 for e, x in zip(t.elts, v.elts):
                     self.assign(e, x, frame, st)
             else:
-                # element of an unknown sequence: may be a view of it
-                part = AV(origins=v.origins, deps=v.deps, arr=v.arr)
+                # element of an unknown sequence: may be a view of it; for a list that was filled by appends the
+                # elements are the appended objects themselves
+                if elem_origins(v) and not v.arr and v.eor:
+                    part = AV(origins=elem_origins(v), deps=v.deps, arr=elems_are_arrays(v))
+                else:
+                    part = AV(origins=v.origins, deps=v.deps, arr=v.arr)
                 if v.elts is not None:
                     part = None
                     for x in v.elts:
@@ -935,7 +947,7 @@ class Interp:
         if it.arr:
             return AV(origins=it.origins, deps=it.deps, arr=True)
         eo = elem_origins(it)
-        return AV(origins=eo, deps=it.deps | eo)
+        return AV(origins=eo, deps=it.deps | eo, arr=elems_are_arrays(it))
 
     def s_Try(self, st, frame):
         env0 = dict(frame.env)
@@ -1877,6 +1889,8 @@ class Interp:
                 eo = set(cur.eor)
                 for a in args:
                     eo |= a.origins if name != "extend" else elem_origins(a)
+                    if (a.arr and name != "extend") or (name == "extend" and elems_are_arrays(a)):
+                        eo.add(ARR_MARK)
                 frame.env[e.func.value.id] = cur.replace(deps=cur.deps | derived(*args).deps, elts=None,
                                                          eor=FS(eo))
             if name in ("update", "setdefault", "pop", "clear", "popitem") and isinstance(e.func, ast.Attribute) \
